@@ -142,6 +142,18 @@ def build_problem(case):
             # the flow of the assembly that evaluates it)
             wl.add_spacer_grid(rng, P, nm, modes=('loss', 'REH', 'CDD',
                                                   'CDD'))
+    # some assemblies carry no power at all (their set-up must not pick up
+    # anything from the assembly treated before them)
+    n_zero = 0
+    for q in P['positions'][1:]:
+        if rng.random() < 0.15:
+            q.pop('outlet_temp', None)
+            q.pop('delta_temp', None)
+            q['flowrate'] = q['nominal_flowrate']
+            P['power']['asm'][str(gen.pos_index0(q['ring'], q['pos']))][
+                'total'] = 0.0
+            n_zero += 1
+    feats['unpowered_assemblies'] = n_zero
     if rng.random() < 0.3:
         P['setup']['param_update_tol'] = float(wl.choose(rng, [1e-3, 0.01,
                                                                 0.05]))
@@ -377,6 +389,13 @@ def run_case(case):
         # ---- stand-alone reruns ----------------------------------------------
         rng = np.random.default_rng(case['seed'] + [1])
         pick = list(rng.permutation(ids))[:3]
+        zero_ids = [gen.pos_index0(q['ring'], q['pos'])
+                    for q in P['positions']
+                    if P['power']['asm'][str(gen.pos_index0(
+                        q['ring'], q['pos']))]['total'] == 0.0]
+        for z_ in zero_ids[:2]:
+            if z_ in ids and z_ not in pick:
+                pick = [z_] + pick[:2]
         for k0 in pick:
             Q = standalone_problem(P, int(k0))
             Q['setup'] = dict(Q['setup'])
@@ -429,6 +448,8 @@ def run_case(case):
             res.tag('positions_sharing_a_line=%d'
                     % feats.get('merged_positions', 0))
         res.tag('tdep=%s' % feats['tdep'])
+        res.tag('unpowered_assemblies=%d' % feats.get('unpowered_assemblies',
+                                                      0))
         shared = len(ids) > len(set(names.values()))
         res.tag('clones_share_type=%s' % shared)
         if shared and rise > 5.0:
